@@ -66,7 +66,7 @@ def cmonFor : String → List CMon
   | "C03" => [ackedSurvive, streamsAgree]
   | "C04" => [logsAgree, termsMonotone, retainedAgree]
   | "C05" => [commitLeLast]
-  | "C08" => [clientOutcomes, barrierOK]
+  | "C08" => [clientOutcomes, barrierOK, ackedSurvive, streamsAgree]
   | "C09" => [verifyFresh]
   | "C13" => [leaseStepDown, calmStable]
   | "C20" => [restoreOK, finalStatesEqual, allResolved]
